@@ -20,7 +20,7 @@ inductive Node
   | waker (c : Nat)         -- StreamWaker registered inside transport c
   | acceptTask (e : Nat)    -- accept loop for bound endpoint e
   | stopTx (e : Nat)        -- its stop-channel sender, stored in the socket's bind table
-  | hsTask (c : Nat)        -- detached handshake task of connection c
+  | hsTask (c : Nat)        -- handshake task of accepted connection c
 deriving DecidableEq, Repr
 
 /-- the part of the socket state that determines who owns what -/
@@ -31,6 +31,8 @@ structure Cfg where
   handshaking : Nat → Bool        -- connection c is still in its detached handshake task
   bound : Nat → Bool              -- endpoint e is in the bind table
   fqDropsStreams : Bool           -- (the D15 repair) dropping the FairQueue clears the stream map
+  hsEp : Nat → Nat                -- the endpoint whose accept loop started connection c's handshake
+  hsStops : Bool                  -- (the D14 repair) a handshake task also waits for its listener's stop signal
 
 open Node
 
@@ -48,6 +50,7 @@ def owns (g : Cfg) : Node → Node → Prop
   | transport c, waker c' => c = c' ∧ g.armed c
   | waker _, qinner => True                       -- StreamWaker.inner
   | stopTx e, acceptTask e' => e = e'             -- the task runs until its sender is dropped or fired
+  | stopTx e, hsTask c => g.hsStops ∧ g.handshaking c ∧ g.hsEp c = e   -- (repair) … and so do the handshakes it started
   | acceptTask _, backend => True                 -- the accept callback captured a clone
   | hsTask c, backend => g.handshaking c
   | hsTask c, rhalf c' => c = c' ∧ g.handshaking c
@@ -57,7 +60,7 @@ def owns (g : Cfg) : Node → Node → Prop
 /-- roots: things kept alive by the outside world -/
 def root (g : Cfg) : Node → Prop
   | sock => g.sockHeld
-  | hsTask c => g.handshaking c      -- a spawned task is alive until it finishes
+  | hsTask c => g.handshaking c ∧ ¬ g.hsStops     -- a DETACHED task is alive until it finishes (before the repair)
   | _ => False
 
 /-- reference-count semantics: an object is freed when it is not a root and every owner is freed -/
